@@ -23,8 +23,13 @@ for sd in seeds:
         print("/repo not clean"); sys.exit(3)
     if sh(f"git -C /repo apply {d}/patch.diff").returncode != 0:
         rows.append((sd, "patch-does-not-apply", "")); continue
+    ev = f"{ROOT}/evidence/{pid}.json"
+    ev_before = open(ev).read() if os.path.exists(ev) else None
     r = sh(f"cd {ROOT} && ./check {pid} --tier quick")
     sh("git -C /repo checkout -- .")
+    # the evidence file of a run against a seeded change is not evidence for the unchanged tree: put the old one back
+    if ev_before is not None:
+        open(ev, "w").write(ev_before)
     lines = [l for l in r.stdout.splitlines() if l.startswith(("VIOLATION", "KNOWN-FINDING", "check "))]
     viol = [l for l in lines if l.startswith("VIOLATION")]
     with_input = [l for l in viol if "no-failing-input-found" not in l]
